@@ -22,3 +22,96 @@ Lemma ball_force_is_transpose X1 X2 V1 V2 s2 lam : orth (fst X1) ->
   sv_dot ROps (fst (ball_force ROps X1 X2 s2 lam)) V1 + sv_dot ROps (snd (ball_force ROps X1 X2 s2 lam)) V2.
 Proof. intros H. unfold ball_verr, ball_force. rewrite stVel_toB, stForce_toB by auto.
   dX X1; dX X2; dSV V1; dSV V2; d3 s2; d3 lam. cunf. ring. Qed.
+Lemma ball_force_balanced X1 X2 s2 lam : orth (fst X1) -> balanced2 X1 X2 (ball_force ROps X1 X2 s2 lam).
+Proof. intros H. unfold ball_force. rewrite stForce_toB by auto. dX X1; dX X2; d3 s2; d3 lam. cunf. teq; ring. Qed.
+
+(** corollaries: the hierarchy is the plain one on the manifold, or when body 1 does not rotate in A (e.g. it IS the ancestor) *)
+Lemma vc_add_cross_zero i a w : vc i (a +v w xv O3) = vc i a.
+Proof. d3 a; d3 w. di i; cunf; unfold O3; ring. Qed.
+Lemma vc_sub_cross_zero i a w : vc i (a -v w xv O3) = vc i a.
+Proof. d3 a; d3 w. di i; cunf; unfold O3; ring. Qed.
+Lemma vc_add_zero_cross i a b : vc i (a +v O3 xv b) = vc i a.
+Proof. d3 a; d3 b. di i; cunf; unfold O3; ring. Qed.
+Lemma vc_sub_zero_cross i a b : vc i (a -v O3 xv b) = vc i a.
+Proof. d3 a; d3 b. di i; cunf; unfold O3; ring. Qed.
+Lemma ball_verr_is_jet_on_manifold i X1 X2 V1 V2 s1 s2 : orth (fst X1) -> ball_perr ROps X1 X2 s1 s2 = O3 ->
+  is_derive (fun t => vc i (ball_perr ROps (Xt X1 V1 t) (Xt X2 V2 t) s1 s2)) 0 (vc i (ball_verr ROps X1 X2 V1 V2 s2)).
+Proof. intros H Hp. generalize (ball_verr_relation i X1 X2 V1 V2 s1 s2 H). rewrite Hp, vc_add_cross_zero. auto. Qed.
+Lemma ball_verr_is_jet_body1_not_rotating i X1 X2 V1 V2 s1 s2 : orth (fst X1) -> fst V1 = O3 ->
+  is_derive (fun t => vc i (ball_perr ROps (Xt X1 V1 t) (Xt X2 V2 t) s1 s2)) 0 (vc i (ball_verr ROps X1 X2 V1 V2 s2)).
+Proof. intros H Hw. generalize (ball_verr_relation i X1 X2 V1 V2 s1 s2 H). rewrite Hw, vc_add_zero_cross. auto. Qed.
+Lemma ball_aerr_is_jet_on_manifold i X1 X2 V1 V2 A1 A2 s2 : orth (fst X1) -> ball_verr ROps X1 X2 V1 V2 s2 = O3 ->
+  is_derive (fun t => vc i (ball_verr ROps (Xt X1 V1 t) (Xt X2 V2 t) (Vt V1 A1 t) (Vt V2 A2 t) s2)) 0
+            (vc i (ball_aerr ROps X1 X2 V1 V2 A1 A2 s2)).
+Proof. intros H Hp. generalize (ball_aerr_relation i X1 X2 V1 V2 A1 A2 s2 H). rewrite Hp, vc_sub_cross_zero. auto. Qed.
+Lemma ball_aerr_is_jet_body1_not_rotating i X1 X2 V1 V2 A1 A2 s2 : orth (fst X1) -> fst V1 = O3 ->
+  is_derive (fun t => vc i (ball_verr ROps (Xt X1 V1 t) (Xt X2 V2 t) (Vt V1 A1 t) (Vt V2 A2 t) s2)) 0
+            (vc i (ball_aerr ROps X1 X2 V1 V2 A1 A2 s2)).
+Proof. intros H Hw. generalize (ball_aerr_relation i X1 X2 V1 V2 A1 A2 s2 H). rewrite Hw, vc_sub_zero_cross. auto. Qed.
+
+(** refutation of the property's "possibly violated" clause for Ball: body 1 = frame at the origin spinning about z,
+    body 2 at rest with its station at (1,0,0): perr = (1,0,0), verr = (0,-1,0) but d/dt perr = 0 *)
+Lemma ball_verr_is_jet_refuted : exists X1 X2 V1 V2 s1 s2 i, orth (fst X1) /\ orth (fst X2) /\
+  ~ is_derive (fun t => vc i (ball_perr ROps (Xt X1 V1 t) (Xt X2 V2 t) s1 s2)) 0 (vc i (ball_verr ROps X1 X2 V1 V2 s2)).
+Proof.
+  exists (I3,O3), (I3,(1,0,0)), ((0,0,1),O3), (O3,O3), O3, O3, 1%nat.
+  repeat split; try apply orth_I3. intros Hd.
+  pose proof (ball_verr_relation 1 (I3,O3) (I3,(1,0,0)) ((0,0,1),O3) (O3,O3) O3 O3 orth_I3) as Hr.
+  pose proof (is_derive_same _ _ _ _ Hd Hr) as E. revert E. unfold I3, O3. cunf. lra.
+Qed.
+(** and one level up: body 1 spinning about z, body 2's station at the origin moving along x: verr = (1,0,0),
+    aerr = 0 but d/dt verr = (0,-1,0) *)
+Lemma ball_aerr_is_jet_refuted : exists X1 X2 V1 V2 A1 A2 s2 i, orth (fst X1) /\ orth (fst X2) /\
+  ~ is_derive (fun t => vc i (ball_verr ROps (Xt X1 V1 t) (Xt X2 V2 t) (Vt V1 A1 t) (Vt V2 A2 t) s2)) 0
+              (vc i (ball_aerr ROps X1 X2 V1 V2 A1 A2 s2)).
+Proof.
+  exists (I3,O3), (I3,O3), ((0,0,1),O3), (O3,(1,0,0)), (O3,O3), (O3,O3), O3, 1%nat.
+  repeat split; try apply orth_I3. intros Hd.
+  pose proof (ball_aerr_relation 1 (I3,O3) (I3,O3) ((0,0,1),O3) (O3,(1,0,0)) (O3,O3) (O3,O3) O3 orth_I3) as Hr.
+  pose proof (is_derive_same _ _ _ _ Hd Hr) as E. revert E. unfold I3, O3. cunf. lra.
+Qed.
+
+(** * Weld: orientation part exactly as ConstantOrientation, position part exactly as Ball *)
+Lemma weld_verr_ori_is_jet i XB XF VB VF FB FF :
+  is_derive (fun t => vc i (fst (weld_perr ROps (Xt XB VB t) (Xt XF VF t) FB FF))) 0 (vc i (fst (weld_verr ROps XB XF VB VF FB FF))).
+Proof. unfold weld_perr, weld_verr. cbn [fst]. apply ori_verr_is_jet. Qed.
+Lemma weld_aerr_ori_is_jet i XB XF VB VF AB AF FB FF :
+  is_derive (fun t => vc i (fst (weld_verr ROps (Xt XB VB t) (Xt XF VF t) (Vt VB AB t) (Vt VF AF t) FB FF))) 0
+            (vc i (fst (weld_aerr ROps XB XF VB VF AB AF FB FF))).
+Proof. unfold weld_verr, weld_aerr. cbn [fst]. apply ori_aerr_is_jet. Qed.
+Lemma weld_verr_pos_relation i XB XF VB VF FB FF : orth (fst XB) ->
+  is_derive (fun t => vc i (snd (weld_perr ROps (Xt XB VB t) (Xt XF VF t) FB FF))) 0
+            (vc i (snd (weld_verr ROps XB XF VB VF FB FF) +v fst VB xv snd (weld_perr ROps XB XF FB FF))).
+Proof. intros H. unfold weld_perr, weld_verr. cbn [snd]. apply ball_verr_relation; auto. Qed.
+Lemma weld_aerr_pos_relation i XB XF VB VF AB AF FB FF : orth (fst XB) ->
+  is_derive (fun t => vc i (snd (weld_verr ROps (Xt XB VB t) (Xt XF VF t) (Vt VB AB t) (Vt VF AF t) FB FF))) 0
+            (vc i (snd (weld_aerr ROps XB XF VB VF AB AF FB FF) -v fst VB xv snd (weld_verr ROps XB XF VB VF FB FF))).
+Proof. intros H. unfold weld_verr, weld_aerr. cbn [snd]. apply ball_aerr_relation; auto. Qed.
+Lemma weld_verr_pos_is_jet_on_manifold i XB XF VB VF FB FF : orth (fst XB) -> snd (weld_perr ROps XB XF FB FF) = O3 ->
+  is_derive (fun t => vc i (snd (weld_perr ROps (Xt XB VB t) (Xt XF VF t) FB FF))) 0 (vc i (snd (weld_verr ROps XB XF VB VF FB FF))).
+Proof. intros H Hp. unfold weld_perr, weld_verr in *. cbn [snd] in *. apply ball_verr_is_jet_on_manifold; auto. Qed.
+Lemma weld_aerr_pos_is_jet_on_manifold i XB XF VB VF AB AF FB FF : orth (fst XB) -> snd (weld_verr ROps XB XF VB VF FB FF) = O3 ->
+  is_derive (fun t => vc i (snd (weld_verr ROps (Xt XB VB t) (Xt XF VF t) (Vt VB AB t) (Vt VF AF t) FB FF))) 0
+            (vc i (snd (weld_aerr ROps XB XF VB VF AB AF FB FF))).
+Proof. intros H Hp. unfold weld_verr, weld_aerr in *. cbn [snd] in *. apply ball_aerr_is_jet_on_manifold; auto. Qed.
+Lemma weld_verr_is_jet_refuted : exists XB XF VB VF FB FF i, orth (fst XB) /\ orth (fst XF) /\
+  ~ is_derive (fun t => vc i (snd (weld_perr ROps (Xt XB VB t) (Xt XF VF t) FB FF))) 0 (vc i (snd (weld_verr ROps XB XF VB VF FB FF))).
+Proof.
+  destruct ball_verr_is_jet_refuted as (X1 & X2 & V1 & V2 & s1 & s2 & i & H1 & H2 & Hn).
+  exists X1, X2, V1, V2, (I3, s1), (I3, s2), i. repeat split; auto.
+Qed.
+Lemma sv_dot_add_l a b c : sv_dot ROps (sv_add ROps a b) c = sv_dot ROps a c + sv_dot ROps b c.
+Proof. dSV a; dSV b; dSV c. vunf. ring. Qed.
+Lemma weld_force_is_transpose XB XF VB VF FB FF lam : orth (fst XB) ->
+  v3_dot ROps (fst lam) (fst (weld_verr ROps XB XF VB VF FB FF)) + v3_dot ROps (snd lam) (snd (weld_verr ROps XB XF VB VF FB FF)) =
+  sv_dot ROps (fst (weld_force ROps XB XF FB FF lam)) VB + sv_dot ROps (snd (weld_force ROps XB XF FB FF lam)) VF.
+Proof. intros H. unfold weld_verr, weld_force. cbn [fst snd].
+  rewrite (ori_force_is_transpose XB XF VB VF (fst FB) (fst FF) (fst lam)), (ball_force_is_transpose XB XF VB VF (snd FF) (snd lam) H).
+  destruct (ori_force ROps XB XF (fst FB) (fst FF) (fst lam)) as [tB tF]. destruct (ball_force ROps XB XF (snd FF) (snd lam)) as [fB fF].
+  cbn [fst snd]. rewrite !sv_dot_add_l. ring. Qed.
+Lemma weld_force_balanced XB XF FB FF lam : orth (fst XB) -> balanced2 XB XF (weld_force ROps XB XF FB FF lam).
+Proof. intros H. unfold weld_force.
+  pose proof (ori_force_balanced XB XF (fst FB) (fst FF) (fst lam)) as Ho. pose proof (ball_force_balanced XB XF (snd FF) (snd lam) H) as Hb.
+  destruct (ori_force ROps XB XF (fst FB) (fst FF) (fst lam)) as [tB tF]. destruct (ball_force ROps XB XF (snd FF) (snd lam)) as [fB fF].
+  unfold balanced2 in *. cbn [fst snd] in *. dX XB; dX XF; dSV tB; dSV tF; dSV fB; dSV fF. revert Ho Hb. cunf. intros Ho Hb.
+  injection Ho as ? ? ? ? ? ?. injection Hb as ? ? ? ? ? ?. teq; lra. Qed.
